@@ -69,7 +69,11 @@ func newC17State() *c17State {
 }
 
 func collDump(c godi.Collection) string {
-	return kit.Dump(c, "collection.analyzer", "collection.mu")
+	// the analyzer cache and the lock are not part of the registry: masked by field name and, in
+	// case of a rename, by type name
+	d := kit.NewDumper("collection.analyzer", "collection.mu")
+	d.SkipType = map[string]bool{"Analyzer": true, "RWMutex": true, "Mutex": true}
+	return d.Render(c)
 }
 
 // applyOne applies one add to collection and model; returns findings.
